@@ -49,7 +49,12 @@ DateConvCells == {[k |-> kk, n |-> n, t |-> t] : kk \in {"PlainDateTime.fromDate
                  \cup {[k |-> "PlainDateTime.fromPlainDate", n |-> n, t |-> Midnight] : n \in {MinDay, MinDay + 1, MaxDay, 0}}
 StrCells == {[k |-> "PlainDate.fromStr", n |-> n] : n \in EdgeDays}
             \cup {[k |-> kk, n |-> n, t |-> t] : kk \in {"PlainDateTime.fromStr", "Instant.fromStr"}, n \in {MinDay - 1, MinDay, MinDay + 1, MaxDay, MaxDay + 1}, t \in {Midnight, T1, TLast}}
-ZdtCells == {[k |-> "ZonedDateTime.new", ns |-> Add(b, FromInt(d))] : b \in {MaxInstantBig, Neg(MaxInstantBig)}, d \in Deltas}
+\* the 128-bit argument's own extremes
+M16(x) == MulSmall(x, 65536)
+TwoTo127 == MulSmall(M16(M16(M16(M16(M16(M16(M16(FromInt(1)))))))), 32768)
+I128Max == Sub(TwoTo127, FromInt(1))
+I128Ends == {I128Max, Sub(I128Max, FromInt(1)), Neg(TwoTo127), Neg(I128Max)}
+ZdtCells == {[k |-> "ZonedDateTime.new", ns |-> Add(b, FromInt(d))] : b \in {MaxInstantBig, Neg(MaxInstantBig)}, d \in Deltas} \cup {[k |-> "ZonedDateTime.new", ns |-> n] : n \in I128Ends}
 DateEpochCells == {[k |-> "PlainDate.epochNsUtc", n |-> n] : n \in {MinDay, MinDay + 1, MaxDay, 0}}
 \* constrain clamps month and day, never the year
 DateConstrainCells == {[k |-> "PlainDate.newConstrain", d |-> d] : d \in {Date(275761, 1, 1), Date(275761, 9, 13), Date(275760, 9, 14), Date(275760, 13, 40), Date(-271822, 12, 31), Date(-271822, 4, 19),
@@ -63,7 +68,7 @@ DTToZonedCells == {[k |-> "PlainDateTime.toZonedOffset", n |-> c[1], t |-> c[2],
 \* PlainDate.toZonedDateTime({timeZone: UTC, plainTime}): the combined date-time must be within the date-time limits (step 6.c) and its
 \* instant within the instant limits; tt = "none" is the start of the day
 DateToZonedCells == {[k |-> "PlainDate.toZonedUtc", n |-> n, tt |-> tt] : n \in {MinDay, MinDay + 1, MaxDay - 1, MaxDay, 0}, tt \in {"none", "midnight", "t1", "last"}}
-InstNewCells == {[k |-> "Instant.new", ns |-> Add(b, FromInt(d))] : b \in {MaxInstantBig, Neg(MaxInstantBig)}, d \in Deltas} \cup {[k |-> "Instant.new", ns |-> MulSmall(MaxInstantBig, 2)]}
+InstNewCells == {[k |-> "Instant.new", ns |-> Add(b, FromInt(d))] : b \in {MaxInstantBig, Neg(MaxInstantBig)}, d \in Deltas} \cup {[k |-> "Instant.new", ns |-> MulSmall(MaxInstantBig, 2)]} \cup {[k |-> "Instant.new", ns |-> n] : n \in I128Ends}
 InstAddCells == {[k |-> "Instant.add", i |-> Add(b, FromInt(d0)), ns |-> FromInt(d), sub |-> s] : b \in {MaxInstantBig, Neg(MaxInstantBig)}, d0 \in {-1, 0, 1} , d \in Deltas, s \in BOOLEAN} 
 InstAddCellsOK == {c \in InstAddCells : InInstantRange(c.i)}
 \* the argument is a 64-bit integer: its own extremes (|i64::MIN| is not representable - a sign trick overflows there) are inputs too
